@@ -1,15 +1,181 @@
-(* C16 - topology diffs: property theorems only (proofs in Attr/DiffProofs.v). *)
+(* C16 - topology diffs: property theorems only (proofs in Attr/DiffProofs.v).
+   Model: Attr/Diff.v (hwloc/diff.c statement by statement).
+
+   H (hypotheses, all executable booleans, see Attr/Diff.v):
+     keys_unique T        (depth, logical_index) identifies an object
+     vals_u64 T           uint64_t fields hold uint64_t values
+     info_names_nodup T   no info name occurs twice in one object / in the topology infos
+     forallb entry_u64 d  uint64_t fields of the entries hold uint64_t values          *)
 From Coq Require Import List NArith ZArith Bool String Lia.
 From HV Require Import Gen.Tables Attr.Diff Attr.DiffProofs.
 Import ListNotations.
 Local Open Scope N_scope.
 Local Open Scope string_scope.
 
+(* ---------------- hwloc_topology_diff_build ---------------- *)
+
+(* for ALL pairs of object trees: hwloc_diff_trees emits nothing iff the trees
+   are equal once the fields it never reads are erased (logical_index,
+   total_memory, local_memory of non-NUMA objects, attribute bytes of types
+   outside its memcmp list) *)
+Theorem diff_trees_empty_iff_equal : forall o1 o2, diff_trees o1 o2 = [] <-> erase o1 = erase o2.
+Proof. exact diff_trees_nil_iff. Qed.
+Print Assumptions diff_trees_empty_iff_equal.
+
+(* for ALL pairs of object trees: no TOO_COMPLEX entry iff the skeletons
+   (everything but names, info values, NUMA local memory) are equal *)
+Theorem diff_trees_toocomplex_iff_skeleton_differs : forall o1 o2, has_tc (diff_trees o1 o2) = false <-> skel o1 = skel o2.
+Proof. exact diff_trees_tc_iff. Qed.
+Print Assumptions diff_trees_toocomplex_iff_skeleton_differs.
+
+(* for ALL topologies: 0 with a NULL diff iff nothing a diff can see differs.
+   [top_same] is the topology-level comparison as the code does it; its
+   distances part is made explicit by dists_compare_exact below, its memory
+   attribute part is NOT equality (build_zero_iff_equal_refuted_memattr). *)
+Theorem build_zero_iff_equal : forall A B,
+  diff_build 0 A B = BRet 0 [] <-> erase (t_root A) = erase (t_root B) /\ t_infos A = t_infos B /\ top_same A B.
+Proof. exact build_zero_iff. Qed.
+Print Assumptions build_zero_iff_equal.
+
+Theorem dists_compare_exact : forall l1 l2,
+  dists_differ l1 l2 = false <-> l1 = l2 /\ forallb (fun p => negb (fst p)) l1 = true.
+Proof. exact dists_differ_spec. Qed.
+Print Assumptions dists_compare_exact.
+
+(* for ALL topologies: rc is 0 or 1, and 1 exactly when a TOO_COMPLEX entry is in the list *)
+Theorem build_rc_iff_toocomplex_entry : forall A B rc d,
+  diff_build 0 A B = BRet rc d -> (rc = 1%Z /\ has_tc d = true) \/ (rc = 0%Z /\ has_tc d = false).
+Proof. exact build_rc. Qed.
+Print Assumptions build_rc_iff_toocomplex_entry.
+
+(* for ALL topologies on which the initiator loop stays in bounds: returns 1
+   exactly when they differ in something a diff cannot express *)
+Theorem build_toocomplex_iff_inexpressible : forall A B,
+  memattrs_cmp false (t_memattrs A) (t_memattrs B) <> None ->
+  ((exists d, diff_build 0 A B = BRet 1 d) <-> ~ expressible A B) /\
+  ((exists d, diff_build 0 A B = BRet 0 d) <-> expressible A B).
+Proof. exact build_toocomplex_iff. Qed.
+Print Assumptions build_toocomplex_iff_inexpressible.
+
+(* identical topologies holding a heterogeneous distances matrix: rc = 1 *)
+Theorem build_zero_iff_equal_refuted_hetero : exists T, diff_build 0 T T = BRet 1 [ETooComplex 0 0].
+Proof. exists het_T. exact hetero_witness. Qed.
+Print Assumptions build_zero_iff_equal_refuted_hetero.
+
+(* memory attribute values: extra initiators on the second side are never
+   compared (0 with an empty diff although the values differ); missing ones
+   are read past the end of the array *)
+Theorem build_zero_iff_equal_refuted_memattr :
+  exists A B, t_memattrs A <> t_memattrs B /\ diff_build 0 A B = BRet 0 [] /\ diff_build 0 B A = BOverread.
+Proof.
+  exists (ma_T ["i0=100"]), (ma_T ["i0=100"; "i1=200"]). destruct memattr_witness as [H1 H2].
+  split; [intros E; discriminate E|]. split; assumption.
+Qed.
+Print Assumptions build_zero_iff_equal_refuted_memattr.
+
+(* ---------------- hwloc_topology_diff_apply ---------------- *)
+
+(* for ALL topologies under H and ALL entries: an entry that applies is undone
+   by the same entry applied with the opposite direction *)
+Theorem entry_apply_then_reverse_restores : forall rev e T T',
+  Hkeys T -> Hnames T -> Hu64 T -> entry_u64 e = true ->
+  apply_one rev e T = Ok T' -> apply_one (negb rev) e T' = Ok T.
+Proof. exact step_inverse. Qed.
+Print Assumptions entry_apply_then_reverse_restores.
+
+(* H is an invariant of successful entries *)
+Theorem entry_preserves_hypotheses : forall rev e T T',
+  Hkeys T -> Hnames T -> Hu64 T -> entry_u64 e = true ->
+  apply_one rev e T = Ok T' -> Hkeys T' /\ Hnames T' /\ Hu64 T'.
+Proof. exact step_preserves. Qed.
+Print Assumptions entry_preserves_hypotheses.
+
 (* "If the N-th entry cannot be applied, apply returns -N and the topology is
-   exactly as before the call": false for the code as it is. *)
+   exactly as before the call": false for the code as it is, under H. *)
 Theorem apply_failure_rolls_back_refuted :
-  exists T d T', keys_unique T && vals_u64 T && info_names_nodup T = true /\
+  exists T d T', keys_unique T && vals_u64 T && info_names_nodup T = true /\ forallb entry_u64 d = true /\
                  diff_apply 0 d T = ARet (-3) T' /\ T' <> T.
 Proof. exists rb_T, rb_d, (topo1 (Some "m") [("X", "b")]). destruct rollback_witness as [H1 H2].
-  split; [exact H2|]. split; [exact H1|]. intros E. discriminate E. Qed.
+  split; [exact H2|]. split; [reflexivity|]. split; [exact H1|]. intros E. discriminate E. Qed.
 Print Assumptions apply_failure_rolls_back_refuted.
+
+(* with the cancel loop undoing last-to-first (patches/fix-C16-rollback-order.diff):
+   for ALL topologies under H, ALL lists and flags, a negative return leaves
+   the topology exactly as before the call.  [becomes apply_failure_rolls_back
+   once the fix is committed and diff_apply follows it] *)
+Theorem apply_failure_rolls_back_fixed : forall flags d T rc T',
+  Hkeys T -> Hnames T -> Hu64 T -> forallb entry_u64 d = true ->
+  diff_apply_fixed flags d T = ARet rc T' -> (rc < 0)%Z -> T' = T.
+Proof. exact rollback_fixed. Qed.
+Print Assumptions apply_failure_rolls_back_fixed.
+
+(* APPLY_REVERSE walks the list first-to-last as well: a list that touches one
+   attribute twice applies, and its reverse application fails on the result *)
+Theorem reverse_restores_refuted :
+  exists T d T', keys_unique T && vals_u64 T && info_names_nodup T = true /\
+                 diff_apply 0 d T = ARet 0 T' /\
+                 diff_apply HWLOC_TOPOLOGY_DIFF_APPLY_REVERSE d T' = ARet (-1) T'.
+Proof.
+  exists rb_T, (firstn 2 rb_d), (topo1 (Some "m") [("X", "c")]). destruct reverse_witness as [H1 H2].
+  split; [reflexivity|]. split; assumption.
+Qed.
+Print Assumptions reverse_restores_refuted.
+
+(* name set on one side only: build returns 0, and the diff it returns either
+   crashes apply (strdup(NULL)) or cannot be applied (-1) *)
+Theorem name_unset_refuted :
+  (exists A B d, diff_build 0 A B = BRet 0 d /\ diff_apply 0 d A = ACrash) /\
+  (exists A B d, diff_build 0 A B = BRet 0 d /\ diff_apply 0 d A = ARet (-1) A).
+Proof.
+  split.
+  - exists (topo1 (Some "m") []), (topo1 None []), [EAttr 0 0 (DName (Some "m") None)]. exact name_unset_witness_crash.
+  - exists (topo1 None []), (topo1 (Some "m") []), [EAttr 0 0 (DName None (Some "m"))]. exact name_unset_witness_fail.
+Qed.
+Print Assumptions name_unset_refuted.
+
+(* two infos with one name in an object, no (name, value) pair duplicated on
+   either side: apply(A, build(A,B)) succeeds and is not B *)
+Theorem dup_info_refuted :
+  exists A B d T', H_diff_weak A && H_diff_weak B = true /\ diff_build 0 A B = BRet 0 d /\
+                   diff_apply 0 d A = ARet 0 T' /\ erase (t_root T') <> erase (t_root B).
+Proof.
+  destruct dup_info_witness as [H1 (d & H2 & H3)].
+  exists di_A, di_B, d, (topo1 (Some "m") [("X", "c"); ("X", "b")]). repeat split; try assumption.
+  intros E. discriminate E.
+Qed.
+Print Assumptions dup_info_refuted.
+
+(* ---------------- non-vacuity ---------------- *)
+
+Definition ex_T := topo2 "p0" "p1" 1000 2000 [("X", "a"); ("Y", "b")] [] [("T", "1")].
+Definition ex_d := [EAttr 1 0 (DInfo "X" "a" "b"); EAttr (-3) 1 (DSize 0 2000 (2 ^ 64 - 1)); EAttr 1 0 (DName (Some "p0") (Some "q"));
+                    EAttr 3 0 (DInfo "T" "1" "2"); EAttr 1 0 (DInfo "X" "b" "c"); EAttr 2 5 (DName (Some "pu") (Some "x"))].
+
+(* a 2-package topology with NUMA nodes satisfies H; a 6-entry list touching a
+   name, a size (wrapping total_memory), an object info twice and a topology
+   info fails at its 6th entry: the code as it is leaves X=b, the fixed one restores *)
+Example hypotheses_met :
+  Hkeys ex_T /\ Hnames ex_T /\ Hu64 ex_T /\ forallb entry_u64 ex_d = true /\ tmem_consistent ex_T = true /\
+  (exists T', diff_apply 0 ex_d ex_T = ARet (-6) T' /\ T' <> ex_T) /\
+  diff_apply_fixed 0 ex_d ex_T = ARet (-6) ex_T.
+Proof.
+  split; [apply keys_unique_Hkeys; vm_compute; reflexivity|].
+  split; [apply info_names_nodup_Hnames; vm_compute; reflexivity|].
+  split; [apply vals_u64_Hu64; vm_compute; reflexivity|].
+  split; [vm_compute; reflexivity|]. split; [vm_compute; reflexivity|]. split.
+  - eexists. split; [vm_compute; reflexivity|]. intros E. discriminate E.
+  - vm_compute. reflexivity.
+Qed.
+
+(* a pair that differs in a name, an info value, a local memory and a topology
+   info: build returns 0 with 4 entries, apply gives B exactly (total_memory
+   included), reverse apply gives A back *)
+Definition ex_B := topo2 "q0" "p1" 1000 5 [("X", "z"); ("Y", "b")] [] [("T", "2")].
+Example build_apply_reverse_example :
+  exists d, diff_build 0 ex_T ex_B = BRet 0 d /\ List.length d = 4%nat /\
+            diff_apply 0 d ex_T = ARet 0 ex_B /\ diff_apply HWLOC_TOPOLOGY_DIFF_APPLY_REVERSE d ex_B = ARet 0 ex_T /\
+            ~ expressible ex_T (topo1 None []).
+Proof.
+  eexists. split; [vm_compute; reflexivity|]. split; [reflexivity|]. split; [vm_compute; reflexivity|].
+  split; [vm_compute; reflexivity|]. intros [E _]. discriminate E.
+Qed.
